@@ -40,7 +40,7 @@ fn master(rng: &mut Rng) -> (Vec<String>, Vec<(String, String)>) {
     // two tags whose rules are ALL full regular expressions without '*' or '^' (they own a compiled regex although
     // the rule is not flagged as a wildcard rule)
     for t in ["fr1", "fr2"] {
-        for k in 0..3 {
+        for k in 0..16 {
             rules.push(format!("/zz{}n{}x[0-9]+/$tag={}", t, k, t));
             urls.push((format!("https://a.example.com/zz{}n{}x42", t, k), "script".to_string()));
         }
@@ -59,6 +59,12 @@ fn master(rng: &mut Rng) -> (Vec<String>, Vec<(String, String)>) {
             // every member has its URL: which member a size-threshold defect loses depends on rule-id order
             urls.push((format!("https://g.example.com/grp{}w/slot-{:03}.js", f, k), "script".to_string()));
         }
+    }
+    // late full-regex rules (blocker mode: never part of the initial engine, added by the scripted interlude right
+    // after every tag has been switched off, when the rules of the tag just freed are the most recent holes)
+    for k in 0..32 {
+        rules.push(format!("/rs{}x[0-9]+/", k));
+        urls.push((format!("https://a.example.com/rs{}x42", k), "script".to_string()));
     }
     rules.push("/q?*utm=$removeparam=utm".to_string());
     urls.push(("https://a.example.com/q?a=1&utm=2".to_string(), "xhr".to_string()));
@@ -86,7 +92,7 @@ pub fn record_c06(out: &str, seed: u64, n_ops: usize, mode: &str) {
     // removeparam rules are not part of the serialized image (open finding): keep them out in engine mode
     let loadable: Vec<usize> = (0..lines.len()).filter(|i| mode == "blocker" || !lines[*i].contains("removeparam")).collect();
     // the threshold groups are always loaded completely, so that their size at optimisation time is exact
-    let initial: Vec<usize> = loadable.iter().cloned().filter(|i| mode == "engine" || i % 10 < 7 || lines[*i].starts_with("/grp")).collect();
+    let initial: Vec<usize> = loadable.iter().cloned().filter(|i| mode == "engine" || ((i % 10 < 7 || lines[*i].starts_with("/grp")) && !lines[*i].starts_with("/rs"))).collect();
     let mut reserve: Vec<usize> = loadable.iter().cloned().filter(|i| !initial.contains(i)).collect();
     let init_lines: Vec<String> = initial.iter().map(|i| lines[*i].clone()).collect();
     let opt = seed % 2 == 0;
@@ -115,6 +121,7 @@ pub fn record_c06(out: &str, seed: u64, n_ops: usize, mode: &str) {
         }
     }
     let reqs: Vec<(Request, String, String)> = urls.iter().filter_map(|(u, t)| Request::new(u, "https://s.example.org/", t).ok().map(|r| (r, u.clone(), t.clone()))).collect();
+    let focus: Vec<usize> = reqs.iter().enumerate().filter(|(_, (_, u, _))| u.contains("/zz") || u.contains("/rs")).map(|(i, _)| i).collect();
     let all_tags = ["t1", "t2", "t3", "fr1", "fr2"];
     // scripted interludes: (operation, tags) executed before the next random choice.  The "regex-only tag dance":
     // only fr1 on - queries - nothing on - only fr2 on - queries (rules freed and re-allocated between compilations)
@@ -135,7 +142,34 @@ pub fn record_c06(out: &str, seed: u64, n_ops: usize, mode: &str) {
                 else { rng.below(100) };
         if scripted_tags.is_none() && !forced && rng.chance(1, 40) {
             let (a, b) = if rng.chance(1, 2) { ("fr1", "fr2") } else { ("fr2", "fr1") };
-            script.extend([(0usize, vec![a.to_string()]), (99, vec![]), (0, vec![]), (0, vec![b.to_string()]), (99, vec![])]);
+            if mode == "blocker" && rng.chance(1, 2) {
+                // ... and its variant: only one tag on - queries - nothing on - late regex rules added - queries
+                script.extend([(0usize, vec![a.to_string()]), (99, vec![]), (96, vec![]), (99, vec![])]);
+            } else {
+                script.extend([(0usize, vec![a.to_string()]), (99, vec![]), (0, vec![]), (0, vec![b.to_string()]), (99, vec![])]);
+            }
+        }
+        if r == 96 && scripted_tags.is_some() {
+            if let Obj::B(b, _) = &mut obj {
+                // sixteen at a time, parsed beforehand: nothing else is allocated between the release of the tagged
+                // rules and the allocation of these
+                let mut batch: Vec<(usize, NetworkFilter)> = vec![];
+                while batch.len() < 16 {
+                    match reserve.iter().position(|i| lines[*i].starts_with("/rs")) {
+                        Some(pos) => { let i = reserve.swap_remove(pos); batch.push((i, NetworkFilter::parse(&lines[i], true, Default::default()).unwrap())); }
+                        None => break,
+                    }
+                }
+                let refs: Vec<&str> = vec![];
+                b.use_tags(&refs);
+                let outcomes: Vec<(usize, bool)> = batch.into_iter().map(|(i, f)| (i, b.add_filter(f).is_ok())).collect();
+                w.put(&json!({"op": "use", "tags": refs, "panic": false}));
+                for (i, ok) in outcomes {
+                    recent.push(format!("add({})", lines[i]));
+                    w.put(&if ok { json!({"op": "add", "id": i + 1}) } else { json!({"op": "add-rejected", "id": i + 1}) });
+                }
+            }
+            continue;
         }
         let pick_tags = |rng: &mut Rng| -> Vec<String> { all_tags.iter().filter(|_| rng.chance(1, 2)).map(|s| s.to_string()).collect() };
         let mut log = |w: &mut LineWriter, recent: &mut Vec<String>, v: Value, brief: String| {
@@ -213,8 +247,10 @@ pub fn record_c06(out: &str, seed: u64, n_ops: usize, mode: &str) {
             }
         } else {
             // a batch of queries
-            for _ in 0..(2 + rng.below(12)) {
-                let (req, url, ty) = &reqs[rng.below(reqs.len())];
+            // a scripted batch asks for every URL of the regex-only rules; a random one for 2-13 URLs
+            let picks: Vec<usize> = if scripted_tags.is_some() { focus.clone() } else { (0..(2 + rng.below(12))).map(|_| rng.below(reqs.len())).collect() };
+            for qi in picks {
+                let (req, url, ty) = &reqs[qi];
                 let mut rm = RegexManager::default();
                 let hits: Vec<usize> = parsed.iter().enumerate().filter(|(_, f)| f.matches(req, &mut rm)).map(|(i, _)| i + 1).collect();
                 let obs = guarded(|| match &obj {
@@ -239,5 +275,6 @@ pub fn record_c06(out: &str, seed: u64, n_ops: usize, mode: &str) {
     }
     let events = w.n;
     w.finish();
-    println!("{}", json!({"events": events, "nontrivial": nontrivial, "samples": samples, "counters": {"operations": n_ops, "rules": lines.len()}}));
+    println!("{}", json!({"events": events, "nontrivial": nontrivial, "samples": samples, "counters": {"operations": n_ops, "rules": lines.len(), "rule_addresses_recycled": crate::ser::RECYCLED.load(std::sync::atomic::Ordering::Relaxed)}}));
 }
+
